@@ -165,3 +165,112 @@ pub mod wal {
         }
     }
 }
+
+/// One stored row on its own (C18): build, add versions, delete, trim history, decode for a snapshot.
+pub mod tuple {
+    use crate::{
+        multithreading::coordinator::Snapshot,
+        schema::base::{Column, Schema},
+        storage::tuple::{Row, Tuple, TupleBuilder},
+        types::{DataType, DataTypeKind},
+    };
+    use std::collections::{HashMap, HashSet};
+
+    /// A snapshot as plain data.
+    #[derive(Debug, Clone)]
+    pub struct Snap {
+        pub xid: u64,
+        pub xmin: u64,
+        pub xmax: Option<u64>,
+        pub active: Vec<u64>,
+        pub aborted: Vec<u64>,
+    }
+
+    impl Snap {
+        fn to_snapshot(&self) -> Snapshot {
+            Snapshot::new(
+                self.xid,
+                self.xmin,
+                self.xmax,
+                self.active.iter().copied().collect::<HashSet<_>>(),
+                self.aborted.iter().copied().collect::<HashSet<_>>(),
+            )
+        }
+    }
+
+    pub struct Tup {
+        schema: Schema,
+        tuple: Tuple,
+    }
+
+    impl Tup {
+        /// `kinds` are the column types, the first `num_keys` of them are key columns.
+        pub fn build(kinds: &[DataTypeKind], num_keys: usize, row: Vec<DataType>, xmin: u64) -> Result<Self, String> {
+            let columns = kinds
+                .iter()
+                .enumerate()
+                .map(|(i, k)| Column::new_with_defaults(*k, &format!("c{i}")))
+                .collect();
+            let schema = Schema::new_table_with_num_keys(columns, num_keys);
+            let tuple = TupleBuilder::from_schema(&schema)
+                .build(&Row::from(row), xmin)
+                .map_err(|e| e.to_string())?;
+            Ok(Self { schema, tuple })
+        }
+
+        /// New version: `changes` are (value column index, new value).
+        pub fn update(&mut self, changes: Vec<(usize, DataType)>, by: u64) -> Result<(), String> {
+            let modified: HashMap<usize, DataType> = changes.into_iter().collect();
+            self.tuple.add_version_with(&modified, by, &self.schema).map_err(|e| e.to_string())
+        }
+
+        pub fn delete(&mut self, by: u64) -> Result<(), String> {
+            self.tuple.delete(by).map_err(|e| e.to_string())
+        }
+
+        pub fn clear_delete(&mut self) {
+            self.tuple.clear_delete()
+        }
+
+        /// Trims history below the horizon; returns the bytes freed.
+        pub fn trim(&mut self, horizon: u64) -> Result<usize, String> {
+            self.tuple.vaccum_with(horizon, &self.schema).map_err(|e| e.to_string())
+        }
+
+        /// What a reader with this snapshot gets (the path every scan uses).
+        pub fn decode(&self, snap: &Snap) -> Result<Option<Vec<DataType>>, String> {
+            Row::from_bytes_checked_with_snapshot(self.tuple.effective_data(), &self.schema, &snap.to_snapshot())
+                .map(|r| r.map(|row| row.into_inner().into_vec()))
+                .map_err(|e| e.to_string())
+        }
+
+        /// The newest version regardless of visibility.
+        pub fn decode_last(&self) -> Result<Vec<DataType>, String> {
+            Row::from_bytes_checked(self.tuple.effective_data(), &self.schema)
+                .map(|row| row.into_inner().into_vec())
+                .map_err(|e| e.to_string())
+        }
+
+        /// The stored bytes (what a page cell holds).
+        pub fn bytes(&self) -> Vec<u8> {
+            self.tuple.effective_data().to_vec()
+        }
+
+        /// Replaces the tuple by one re-read from its own stored bytes.
+        pub fn reload(&mut self) -> Result<(), String> {
+            let bytes = self.bytes();
+            self.tuple = Tuple::from_slice_unchecked(&bytes).map_err(|e| e.to_string())?;
+            Ok(())
+        }
+
+        /// (row xmin, delete mark, version counter of the newest version, number of versions)
+        pub fn header(&self) -> (u64, Option<u64>, u8, usize) {
+            (
+                self.tuple.xmin(),
+                self.tuple.xmax(),
+                self.tuple.version(),
+                self.tuple.num_versions_with(&self.schema).unwrap_or(0),
+            )
+        }
+    }
+}
